@@ -95,7 +95,39 @@ def _short(o):
     return o.kind if o.kind == 'ret' else 'raises ' + type(o.value).__name__
 
 
+def repeated_fetch_part(ctx):
+    """The same input fetched several times with equal arguments inside one operation, every fetch returning a new array-like
+    object (its == is not a bool): on every cassette type, synchronous and asynchronous."""
+    from playback.tape_recorder import TapeRecorder
+    from vlib.cassettes import open_box, async_over
+    from vlib.programs import Built, World
+    from vlib.spies import SpyCassette
+    from checks.C04_sched import _in, _out, _call
+    for kind in ('memory', 'file', 's3', 'async'):
+        for static in (False, True):
+            prog = {'seed_world': 99, 'class_level': False, 'extractor': None, 'params': {'copy': static}, 'opts': {'raise_rate': 0.0}, 'uid': 960000 + static,
+                    'inputs': [_in('in0', 'rf.in', kind='static' if static else 'instance')], 'outputs': [_out('out0', 'rf.out')],
+                    'body': [_call('in', 'in0', 1), dict(_call('in', 'in0', 1), var='again'), dict(_call('in', 'in0', 1), var='again2'),
+                             {'op': 'out', 'decl': 'out0', 'args': [{'var': 'again'}], 'kwargs': {}, 'var': 'o1'},
+                             {'op': 'out', 'decl': 'out0', 'args': [{'var': 'again2'}], 'kwargs': {}, 'var': 'o2'}]}
+            with open_box('memory' if kind == 'async' else kind) as box:
+                inner = async_over(box.cassette) if kind == 'async' else box.cassette
+                rec = TapeRecorder(SpyCassette(inner))
+                rec.enable_recording()
+                res = fr.RunResult()
+                res.live = Built(prog, rec, World(99, raise_rate=0.0, hostile_rate=1.0))
+                res.outcome = res.live.run('live')
+                res.twin = Built(prog, None, World(99, raise_rate=0.0, hostile_rate=1.0))
+                res.twin_outcome = res.twin.run('live')
+                if kind == 'async':
+                    inner.close()
+                ctx.case(('repeated-fetch', kind, static))
+                ctx.count('repeated_fetch_runs')
+                ctx.count('calls_compared', compare_with_twin(ctx, res, {'repeated_fetch': True, 'cassette': kind, 'static': static}))
+
+
 def fault_part(ctx):
+    repeated_fetch_part(ctx)
     nprog = 12 if ctx.quick else 60
     progs = fr.base_programs(ctx.seed + 1, nprog)
     rng = ctx.rng
@@ -117,9 +149,26 @@ def fault_part(ctx):
             idx += 1
             if not ctx.mine(idx):
                 continue
-            cfg = {'extractor': rng.choice(fr.EXTRACTORS), 'fail_save': rng.random() < 0.15, 'rate': rng.choice([None, None, 0, 0.5, 1]),
-                   'copy': rng.choice([None, True, False]), 'kind': rng.choice(['memory', 'memory', 'memory', 'file', 's3'])}
-            res = fr.execute(prog, faults, **cfg)
+            cfg = {'extractor': rng.choice([e for e in fr.EXTRACTORS if e != 'ok_calls_output']), 'fail_save': rng.random() < 0.15, 'rate': rng.choice([None, None, 0, 0.5, 1]),
+                   'copy': rng.choice([None, True, False]), 'kind': rng.choice(['memory', 'memory', 'async', 'file', 's3'])}
+            if idx % 5 == 0 and cfg['kind'] != 'async':
+                # the recorder has a past (earlier operations, replays, a failed replay of an imported recording ...)
+                from playback.tape_recorder import TapeRecorder
+                from vlib.cassettes import open_box
+                from vlib.spies import SpyCassette, SpyRandom
+                from vlib.history import give_past
+                cm = open_box(cfg['kind'])
+                box = cm.__enter__()
+                spy = SpyCassette(box.cassette)
+                rec0 = TapeRecorder(spy)
+                rec0._random = SpyRandom(5)
+                rec0.enable_recording()
+                give_past(rec0, spy, idx, ctx)
+                res = fr.execute(prog, faults, recorder=rec0, spy=spy, box=box, **{k: v for k, v in cfg.items() if k != 'kind'})
+                res.box_cm = cm
+                ctx.count('runs_on_a_recorder_with_a_past')
+            else:
+                res = fr.execute(prog, faults, **cfg)
             try:
                 w = {'gen_seed': prog['gen_seed'], 'program': describe(prog), 'faults': fr.faults_json(faults), 'config': cfg}
                 triggered = fr.fault_summary(res)
